@@ -92,6 +92,7 @@ def gen_case(streams, tier):
         'writer_fault': f.randrange(0, 30) if f.random() < 0.3 else None,
         'assert_exc': f.choice(['custom', 'custom', 'pyrtl', 'value', 'internal']),
         'bad_batch': f.randrange(64) if f.random() < 0.4 else None,
+        'short_expected': f.randrange(64) if f.random() < 0.3 else None,
         'sched': world.gen_sched(streams),
     }
 
@@ -489,6 +490,32 @@ def run(case, res):
                 return Violation('reject_step', 'illegal_input_simulated',
                                  {'sim': kind, 'in_batch_at': k}, [kind])
             trip = None
+    # ---- a batch whose expected_outputs list is shorter than the batch: refused, no step taken --
+    outs_all = sorted(w['n'] for w in script['wires'] if w['k'] == 'O')
+    if ncyc >= 2 and case.get('short_expected') is not None and outs_all and tape[0]:
+        try:
+            trip2 = replica.make_sim(kind, live, init, tracer='all')
+        except Exception:
+            trip2 = None
+        if trip2 is not None:
+            nst = min(ncyc, 4)
+            oname = outs_all[case['short_expected'] % len(outs_all)]
+            cols = {n: [tape[j][n] for j in range(nst)] for n in tape[0]}
+            short = [exp[j][oname] for j in range(1 + case['short_expected'] % (nst - 1))]
+            try:
+                trip2.step_multiple(cols, {oname: short}, file=io.StringIO())
+            except pyrtl.PyrtlError:
+                res.faults.hit('batch_refused_for_short_expected_list')
+                if world.tracelen(trip2) != 0:
+                    return Violation('step_multiple', 'steps_taken_by_a_refused_batch',
+                                     {'trace_len': world.tracelen(trip2), 'expected_given': len(short),
+                                      'steps_asked': nst}, [kind])
+            except Exception as e:
+                if not is_planted(e):
+                    raise
+            else:
+                res.probes.hit('short_expected_list_accepted')
+            trip2 = None
     # ---- writer fault: the file object fails on its k-th write; the trace is only read ----
     if case.get('writer_fault') is not None:
         before = {n: list(vs) for n, vs in sim.tracer.trace.items()}
